@@ -7,7 +7,7 @@ of one package differ in nothing but the map iteration orders they see.  Seconda
 configurations: crash at the k-th disk mutation then rerun; dirty start (other package's output
 already in place).
 """
-import os, sys, json, hashlib
+import os, sys, json, copy, hashlib
 sys.path.insert(0, os.path.join(os.path.dirname(os.path.abspath(__file__)), ".."))
 from common.checklib import Check, parse_args, main_guard
 from gen import model as M, edits as E
@@ -90,8 +90,22 @@ def make_workload(seed, i):
             for fn2 in pkg.files:
                 pkg.files[fn2] = [d for d in pkg.files[fn2] if not (isinstance(d, M.Protocol) and d.name.startswith("Gone"))]
         desc["versions"] = len(pkg.versions)
+    if kind == "invalid" and pkg.versions and rng.fork("evobreak").chance(0.6):
+        # an evolution that yardl must reject, with several things to say about one definition: symbols of one enum removed and
+        # renumbered relative to the previous versions, fields of one record retyped
+        eb = rng.fork("evobreak2")
+        fn = sorted(pkg.files)[0]
+        big = M.Enum("SteerWeekday", None, [(w_, k_) for k_, w_ in enumerate(["mon", "tue", "wed", "thu", "fri", "sat", "sun"])])
+        for q in [v for _, v in pkg.versions] + [pkg]:
+            q.files[sorted(q.files)[0]].append(copy.deepcopy(big))
+            # (only what protocols use is compared between versions)
+            q.files[sorted(q.files)[0]].append(M.Protocol("SteerDays", [("day", M.Named("SteerWeekday"), False), ("days", M.Named("SteerWeekday"), True)]))
+        what_ = [E.apply_edit(pkg, eb, "shrink_enum")]
+        for _ in range(eb.randint(0, 2)):
+            what_.append(E.apply_edit(pkg, eb, eb.choice(["retype_field", "change_enum", "shrink_enum"])))
+        desc["evolution_breaking_edits"] = [w_ for w_ in what_ if w_]
     files = M.render_tree(pkg, "/w")
-    if kind == "invalid":
+    if kind == "invalid" and not desc.get("evolution_breaking_edits"):      # (evolution is only checked once everything else is valid)
         # several independent errors so that the order of diagnostics matters
         n = rng.randint(1, 4)
         what = []
